@@ -3,10 +3,16 @@
 package network
 
 import (
+	"bytes"
 	"errors"
 	"fmt"
+	"io"
 	"reflect"
+	"strconv"
+	"strings"
 	"testing"
+
+	libp2pnetwork "github.com/libp2p/go-libp2p/core/network"
 
 	"github.com/ChainSafe/gossamer/dot/network/messages"
 	pb "github.com/ChainSafe/gossamer/dot/network/proto"
@@ -258,6 +264,135 @@ func c33ScanBlockResponse(in []byte) uint64 {
 	return s
 }
 
+// c33CraftBlockResponse plants a boundary prefix inside a block response: in the SCALE header, at
+// the length prefix of a body entry (the nested extrinsics), or at a protobuf length varint
+// (block, hash, header, body entry, receipt, message queue, justification).
+func c33CraftBlockResponse(r *vhRng) []byte {
+	if r.Chance(1, 3) {
+		return c33CraftWire(r, c33RawBlockResponse(r))
+	}
+	m := &pb.BlockResponse{}
+	for i, n := 0, 1+r.Intn(2); i < n; i++ {
+		h := c33Hash(r)
+		bd := &pb.BlockData{Hash: h[:]}
+		if r.Bool() {
+			bd.Header = c33Must(scale.Marshal(*c33Header(r)))
+		}
+		for j, k := 0, 1+r.Intn(3); j < k; j++ {
+			bd.Body = append(bd.Body, c33Must(scale.Marshal(c33Data(r))))
+		}
+		if r.Bool() {
+			bd.Justification = c33Data(r)
+		}
+		m.Blocks = append(m.Blocks, bd)
+	}
+	bd := m.Blocks[r.Intn(len(m.Blocks))]
+	if bd.Header != nil && r.Chance(1, 3) {
+		bd.Header = c33CraftScale(r, reflect.TypeOf(types.Header{}), bd.Header)
+	} else {
+		j := r.Intn(len(bd.Body))
+		bd.Body[j] = c33CraftScale(r, c33BytesType, bd.Body[j])
+		if r.Chance(1, 4) { // drop the entries behind it: the crafted entry ends the stream
+			bd.Body = bd.Body[:j+1]
+		}
+	}
+	return c33Must(proto.Marshal(m))
+}
+
+func c33RawStateRequest(r *vhRng) []byte {
+	m := &pb.StateRequest{Block: c33RawBytes(r, 32), NoProof: r.Bool()}
+	for i, n := 0, r.Intn(4); i < n; i++ {
+		m.Start = append(m.Start, c33RawBytes(r, 4))
+	}
+	return c33Must(proto.Marshal(m))
+}
+
+func c33RawStateResponse(r *vhRng) []byte {
+	m := &pb.StateResponse{Proof: c33RawBytes(r, 6)}
+	for i, n := 0, r.Intn(3); i < n; i++ {
+		e := &pb.KeyValueStateEntry{StateRoot: c33RawBytes(r, 32), Complete: r.Bool()}
+		for j, k := 0, r.Intn(4); j < k; j++ {
+			e.Entries = append(e.Entries, &pb.StateEntry{Key: c33RawBytes(r, 3), Value: c33RawBytes(r, 3)})
+		}
+		m.Entries = append(m.Entries, e)
+	}
+	return c33Must(proto.Marshal(m))
+}
+
+// ---------------------------------------------------------------- readStream (LEB128 framing)
+
+// c33Stream is a libp2p stream whose Read hands out the bytes in pieces of at most chunk.
+type c33Stream struct {
+	libp2pnetwork.Stream
+	r     *bytes.Reader
+	chunk int
+}
+
+func (s *c33Stream) Read(p []byte) (int, error) {
+	if len(p) > s.chunk {
+		p = p[:s.chunk]
+	}
+	return s.r.Read(p)
+}
+
+// c33RunStream: `stream <maxSize> <bufLen> <chunk> <hex>` -> tot, error class, message, buffer
+// length afterwards, unread bytes.
+func c33RunStream(f []string) string {
+	maxSize, e1 := strconv.ParseUint(f[1], 10, 64)
+	bufLen, e2 := strconv.Atoi(f[2])
+	chunk, e3 := strconv.Atoi(f[3])
+	if e1 != nil || e2 != nil || e3 != nil || chunk < 1 || bufLen < 0 || bufLen > 1<<20 {
+		return "bad-op"
+	}
+	return vhWithTimeout(4000, func() string {
+		st := &c33Stream{r: bytes.NewReader(vhUnhex(f[4])), chunk: chunk}
+		buf := make([]byte, bufLen)
+		tot, err := readStream(st, &buf, maxSize)
+		class, msg := "nil", "-"
+		switch {
+		case err == nil:
+			if tot <= len(buf) {
+				msg = vhHex(buf[:tot])
+			} else {
+				msg = "overrun"
+			}
+		case errors.Is(err, io.EOF):
+			class = "eof"
+		case errors.Is(err, ErrInvalidLEB128EncodedData):
+			class = "leb"
+		case errors.Is(err, ErrGreaterThanMaxSize):
+			class = "max"
+		case errors.Is(err, ErrFailedToReadEntireMessage):
+			class = "short"
+		default:
+			class = "other"
+		}
+		return fmt.Sprintf("tot=%d err=%s msg=%s buflen=%d rest=%d", tot, class, msg, len(buf), st.r.Len())
+	})
+}
+
+func c33GenStream(r *vhRng) string {
+	maxSize := r.Pick(0, 1, 16, 100, 1000)
+	bufLen := r.Pick(0, 1, 16, 64, 2000)
+	chunk := r.Pick(1, 2, 3, 7, 64, 4096)
+	frame := func(n int) []byte { return append(Uint64ToLEB128(uint64(n)), r.Bytes(n)...) }
+	var in []byte
+	switch r.Intn(6) {
+	case 0, 1: // one to three well-formed frames (some longer than the maximum)
+		for i, k := 0, 1+r.Intn(3); i < k; i++ {
+			in = append(in, frame(r.Pick(0, 1, 2, 15, 16, 17, 40, maxSize, maxSize+1))...)
+		}
+	case 2: // a frame cut short
+		in = frame(1 + r.Intn(40))
+		in = in[:r.Intn(len(in))]
+	case 3, 4: // boundary length prefix and a short body
+		in = append(append([]byte{}, c33BoundaryVarints[r.Intn(len(c33BoundaryVarints))]...), r.Bytes(r.Intn(6))...)
+	default:
+		in = c33SmallBytes(r, r.Intn(14))
+	}
+	return fmt.Sprintf("stream %d %d %d %s", maxSize, bufLen, chunk, vhHex(in))
+}
+
 var c33Kinds = []*c33Kind{
 	{name: "ba",
 		decode: func(in []byte) (string, func() ([]byte, error), error) {
@@ -274,7 +409,7 @@ var c33Kinds = []*c33Kind{
 				ExtrinsicsRoot: h.ExtrinsicsRoot, Digest: h.Digest, BestBlock: r.Bool()}
 			return c33Must(m.Encode())
 		},
-		scan: c33ScanType(reflect.TypeOf(BlockAnnounceMessage{}))},
+		scan: c33ScanType(reflect.TypeOf(BlockAnnounceMessage{})), typ: reflect.TypeOf(BlockAnnounceMessage{})},
 	{name: "bah",
 		decode: func(in []byte) (string, func() ([]byte, error), error) {
 			m, err := decodeBlockAnnounceHandshake(in)
@@ -303,7 +438,7 @@ var c33Kinds = []*c33Kind{
 			m := &TransactionMessage{Extrinsics: types.BytesArrayToExtrinsics(c33ByteStrings(r))}
 			return c33Must(m.Encode())
 		},
-		scan: c33NoScan},
+		scan: c33NoScan, typ: reflect.TypeOf([]types.Extrinsic(nil))},
 	{name: "txh",
 		decode: func(in []byte) (string, func() ([]byte, error), error) {
 			m, err := decodeTransactionHandshake(in)
@@ -344,7 +479,7 @@ var c33Kinds = []*c33Kind{
 				Min: c33Data(r), Max: c33Data(r), StorageKey: c33OptBytes(r)}
 			return c33Must(m.Encode())
 		},
-		scan: c33ScanType(reflect.TypeOf(request{}))},
+		scan: c33ScanType(reflect.TypeOf(request{})), typ: reflect.TypeOf(request{})},
 	{name: "lresp",
 		decode: func(in []byte) (string, func() ([]byte, error), error) {
 			m, err := newLightResponseFromBytes(in)
@@ -377,7 +512,7 @@ var c33Kinds = []*c33Kind{
 				Roots: roots, RootsProof: c33Data(r)}
 			return c33Must(m.Encode())
 		},
-		scan: c33ScanType(reflect.TypeOf(response{}))},
+		scan: c33ScanType(reflect.TypeOf(response{})), typ: reflect.TypeOf(response{})},
 	{name: "warp",
 		decode: func(in []byte) (string, func() ([]byte, error), error) {
 			m, err := decodeWarpSyncMessage(in, "", false)
@@ -417,7 +552,8 @@ var c33Kinds = []*c33Kind{
 			}
 			return c33Must(m.Encode())
 		},
-		scan: c33NoScan},
+		scan:  c33NoScan,
+		craft: func(r *vhRng) []byte { return c33CraftWire(r, c33RawBlockRequest(r)) }},
 	{name: "bresp",
 		decode: func(in []byte) (string, func() ([]byte, error), error) {
 			m := new(messages.BlockResponseMessage)
@@ -450,7 +586,7 @@ var c33Kinds = []*c33Kind{
 			}
 			return c33Must(m.Encode())
 		},
-		scan: c33ScanBlockResponse},
+		scan: c33ScanBlockResponse, craft: c33CraftBlockResponse},
 	{name: "body",
 		decode: func(in []byte) (string, func() ([]byte, error), error) {
 			b, err := types.NewBodyFromBytes(in)
@@ -468,12 +604,37 @@ var c33Kinds = []*c33Kind{
 			}
 			return c33Must(scale.Marshal(c33ByteStrings(r)))
 		},
-		scan: c33ScanType(reflect.TypeOf([][]byte(nil)))},
+		scan: c33ScanType(reflect.TypeOf([][]byte(nil))), typ: reflect.TypeOf([][]byte(nil))},
+	{name: "sreq",
+		decode: func(in []byte) (string, func() ([]byte, error), error) {
+			m := new(messages.StateRequest)
+			if err := m.Decode(in); err != nil {
+				return "", nil, err
+			}
+			return c33Dump(reflect.ValueOf(*m)), m.Encode, nil
+		},
+		valid: c33RawStateRequest,
+		scan:  c33NoScan,
+		craft: func(r *vhRng) []byte { return c33CraftWire(r, c33RawStateRequest(r)) }},
+	{name: "sresp", // StateResponse has no Encode: re=err
+		decode: func(in []byte) (string, func() ([]byte, error), error) {
+			m := new(messages.StateResponse)
+			if err := m.Decode(in); err != nil {
+				return "", nil, err
+			}
+			return c33Dump(reflect.ValueOf(*m)), func() ([]byte, error) { return nil, errors.New("no encoder") }, nil
+		},
+		valid: c33RawStateResponse,
+		scan:  c33NoScan,
+		craft: func(r *vhRng) []byte { return c33CraftWire(r, c33RawStateResponse(r)) }},
 }
 
 func c33GenNetwork(r *vhRng) string {
 	if r.Chance(1, 200) {
 		return "const " + []string{"MaxBlocksInResponse", "MaxBlockResponseSize"}[r.Intn(2)]
+	}
+	if r.Chance(1, 14) {
+		return c33GenStream(r)
 	}
 	return c33Gen(r, c33Kinds)
 }
@@ -484,6 +645,9 @@ func c33RunNetwork(line string) string {
 		return fmt.Sprint(messages.MaxBlocksInResponse)
 	case "const MaxBlockResponseSize":
 		return fmt.Sprint(MaxBlockResponseSize)
+	}
+	if f := strings.Fields(line); len(f) == 5 && f[0] == "stream" {
+		return c33RunStream(f)
 	}
 	return c33Run(c33Kinds, line)
 }
